@@ -17,6 +17,7 @@ def run(rep):
                                             'yp_generator.YPPrologCompiler.compile_expression', 'yp_generator.YPPrologCompiler.compile_list'], literal_lemma=False)
     # the head of every accepted clause is an ordinary goal whose name is a Python identifier (visitClause)
     control.parse_deductive(rep, control.PARSE_CLAUSE + ['visitSimplepredicate', 'visitTermpredicate'])
+    control.program_deductive(rep)
     q = rep.tier == 'quick'
     fw.standin(rep, 's_c11.py', ['run', rep.seed, 250 if q else 4000],
                'boundary corpus + generated programs: accepted output compiles, loads, defines exactly the clause-head keys as generator functions',
